@@ -250,6 +250,7 @@ class Harness(object):
         self.nonbenign = False
         self.in_query = False
         self.quiescent_points = []
+        self.race_exercised = False
         self.Conn = make_conn_class()
         self.Conn.h = None
         self.session = FakeSession(self)
@@ -666,6 +667,8 @@ class Harness(object):
 
     def a_respond(self, a):
         i = a['i']
+        if self.to_ctx is None and self.in_nested and getattr(self, '_in_timeout', 0):
+            self.race_exercised = True       # a response processed between _on_timeout's pop and its orphan region
         ent = [w for w in self.wire if w[0] == i]
         if i in self.conn._continuous_paging_sessions:
             self.answering = None
@@ -683,6 +686,12 @@ class Harness(object):
             self.feeding = None
         self.checkpoint()
 
+    def a_respond_tok(self, a):
+        """answer the request with token r (on whatever stream it was sent)"""
+        ent = [w for w in self.wire if w[1] == a['r']]
+        if ent:
+            self.a_respond({'a': 'respond', 'i': ent[0][0], 'd': a.get('d', 'DOk')})
+
     def a_timeout(self, a):
         r = a['r']
         t = self.tokens.get(r) or {}
@@ -699,9 +708,13 @@ class Harness(object):
         ent = self.conn.__dict__['_requests_real'].get(i)
         live = a.get('live', True)
         self.to_ctx = {'i': i, 'tok': ent[0].tok if ent else None, 'live': live, 'fired': False, 'nested': a.get('after_pop')}
+        if self.pm is not None and self.pm.get('i') == i:
+            self.race_exercised = True       # _on_timeout run between process_msg's orphan test and its pop
+        self._in_timeout = getattr(self, '_in_timeout', 0) + 1
         try:
             rf._on_timeout()
         finally:
+            self._in_timeout -= 1
             tc, self.to_ctx = self.to_ctx, None
         if not tc['fired']:
             self.emit('TimeoutPop %d %s' % (i, 'true' if live else 'false'))
@@ -735,7 +748,7 @@ class Harness(object):
         self.getid_site = 'set_keyspace_async'
         self.maxid_hook = {'done': False, 'nested': a.get('in_getid') or [], 'armed': False} if a.get('in_getid') else None
         try:
-            c.set_keyspace_async('ks', lambda conn, err: None)
+            c.set_keyspace_async('ks%d' % r, lambda conn, err: None)
         except (ConnectionShutdown, ConnectionBusy):
             pass
         finally:
